@@ -244,7 +244,7 @@ theorem coherent_protocol (F : BodyFn) (P : Project) (g : G) (cfg : Cfg) (s : Se
         obtain ⟨h'', hs'', hr''⟩ := hrows (nv d) (mem_neighbours.2 (Or.inl (hg.deps u hu d hd)))
         rw [stateOf_nv] at hs''
         simp only at hs''
-        rw [runBody_frame F u _ _ (hwf.noSelf u hu d hd)] at hs''
+        rw [runBody_frame F u _ _ (hg.noSelf u hu d hd)] at hs''
         rw [hr'', hs'']
       rw [this]
   · have hfr : ∀ v, row (protocol F P g cfg s t).w.db u.id v = row s.w.db u.id v := by
